@@ -142,11 +142,16 @@ def drain_round_robin_ok(F: Facts, awaiter, bus, ev, awaited=None):
 
 
 def guard_raised(F: Facts, ev):
+    """F2 mechanism: the recursion guard refused a handler of ev (the refusal escaped from process_event, or -
+    since the fix that records it - is the handler's error result)."""
     for (b, e), lst in F.pe.items():
         if e == ev:
             for p in lst:
                 if p[3] and p[3][0] == 'RuntimeError' and 'Infinite loop' in p[3][1]:
                     return True
+    for r in F.final.get('events', {}).get(ev, {}).get('results', ()):
+        if r.get('err') == 'RuntimeError' and 'Infinite loop' in (r.get('err_msg') or ''):
+            return True
     return False
 
 
